@@ -113,7 +113,85 @@ def check_no_dropped_issues(ctx, rule, scope_funcs, exempt=None):
             if targets and all(t in P for t in targets):
                 n_sites += 1
     ctx.count_sites(n_sites)
+    from .dom import view as _view
+    check_no_overwritten_accumulator(ctx, rule, scope_funcs, _view)
     if not ctx.findings or True:
         ctx.ok(rule, "%d issue-producing calls in %d functions are consumed (accumulated, assigned-and-read, "
                      "returned or passed on)" % (n_sites, len(list(scope_funcs))), "")
     return n_sites
+
+
+def overwritten_accumulators(ctx, f, view):
+    """[(assign stmt, name, aug stmt)]: a name that accumulates (`name += ...`, `.extend/.append`) is plainly re-assigned with
+    a value that does not mention it, on a path from the accumulation on which the name is never read: what was collected
+    there is thrown away.  Loop-local resets whose content was consumed (`total += name`) are not reported."""
+    v = view(ctx, f)
+    accs, plains, loads = {}, {}, {}
+    for n in v.cfg.nodes:
+        if n.ast is None:
+            continue
+        a = n.ast
+        if n.kind == "stmt":
+            if isinstance(a, ast.AugAssign) and isinstance(a.target, ast.Name) and isinstance(a.op, ast.Add):
+                accs.setdefault(a.target.id, []).append(n)
+                # the value side may load other names
+                for x in ast.walk(a.value):
+                    if isinstance(x, ast.Name) and isinstance(x.ctx, ast.Load):
+                        loads.setdefault(x.id, set()).add(n)
+                continue
+            if isinstance(a, ast.Expr) and isinstance(a.value, ast.Call) and isinstance(a.value.func, ast.Attribute) \
+                    and a.value.func.attr in ("extend", "append") and isinstance(a.value.func.value, ast.Name):
+                accs.setdefault(a.value.func.value.id, []).append(n)
+                for arg in a.value.args:
+                    for x in ast.walk(arg):
+                        if isinstance(x, ast.Name) and isinstance(x.ctx, ast.Load):
+                            loads.setdefault(x.id, set()).add(n)
+                continue
+            if isinstance(a, ast.Assign) and len(a.targets) == 1 and isinstance(a.targets[0], ast.Name):
+                nm = a.targets[0].id
+                if not any(isinstance(x, ast.Name) and x.id == nm for x in ast.walk(a.value)):
+                    plains.setdefault(nm, []).append(n)
+        for r in v.node_roots(n):
+            for x in ast.walk(r):
+                if isinstance(x, ast.Name) and isinstance(x.ctx, ast.Load):
+                    loads.setdefault(x.id, set()).add(n)
+    out = []
+    for nm, alist in accs.items():
+        for p in plains.get(nm, []):
+            for d in alist:
+                avoid = set(loads.get(nm, ())) - {d}
+                avoid |= {q for q in plains.get(nm, []) if q is not p}
+                if p in avoid:
+                    continue
+                reach = v.cfg.reachable_from(d, True, avoid=avoid)
+                if p in reach and p is not d:
+                    out.append((p.ast, nm, d.ast))
+                    break
+    return out
+
+
+def check_no_overwritten_accumulator(ctx, rule, scope_funcs, view, only_issue_names=True):
+    P, resolved = issue_producers(ctx)
+    n = 0
+    for f in list(scope_funcs):
+        prod = {id(c) for (c, targets) in resolved.get(f, []) if targets and any(t in P for t in targets)}
+        hits = overwritten_accumulators(ctx, f, view)
+        # every accumulating name counts as an obligation
+        for x in walk_no_nested(f.node):
+            if isinstance(x, ast.AugAssign) and isinstance(x.target, ast.Name) and isinstance(x.op, ast.Add):
+                n += 1
+            elif isinstance(x, ast.Expr) and isinstance(x.value, ast.Call) and isinstance(x.value.func, ast.Attribute) \
+                    and x.value.func.attr in ("extend", "append") and isinstance(x.value.func.value, ast.Name):
+                n += 1
+        for stmt, nm, aug in hits:
+            returned = f in P and any(isinstance(r, ast.Return) and r.value is not None and
+                                      any(isinstance(x, ast.Name) and x.id == nm for x in ast.walk(r.value))
+                                      for r in walk_no_nested(f.node))
+            carries = any(isinstance(c, ast.Call) and id(c) in prod for c in ast.walk(aug)) or returned
+            if only_issue_names and not carries:
+                continue
+            ctx.saw(f)
+            ctx.violation(rule, f.qualname, stmt, loc(f, stmt),
+                          "'%s' collects issues with `+=` (line %d) and is then plainly re-assigned without having been read: "
+                          "the issues collected before this statement are lost" % (nm, aug.lineno))
+    return n
